@@ -791,6 +791,14 @@ def gen_C15(r, tier):
         if sub == "oligo" and (d["k"] is None or 3 <= d["k"] <= 7) and d.get("in") is None:
             delim = {None: b" ", "spc": b" ", "csv": b",", "tsv": b"\t"}[d["p"]]
             cases.append("ofile %d %d %d %s %d 4294967296 auto %s 60 %s" % (d["k"] or 3, 0 if d["c"] else 1, 1 if d["H"] else 0, hx(delim), d["t"] or 0, cont, hxlist(recs)))
+    # -t must not change the set of lines even when every worker meets the same new minimiser / k-mer at once
+    for _ in range({"quick": 8, "thorough": 60}[tier]):
+        base = [bytes(r.choices(NUC, k=30 + r.below(40))) for _ in range(1 + r.below(3))]
+        recs = [b for _ in range(150 + r.below(150)) for b in base]
+        sub, d = r.pick([("min", {"m": 7, "p": "m2s"}), ("min", {"m": 9, "w": 14, "p": "m2s"}), ("ctr", {"k": 10})])
+        for t in (1, 16, 8):
+            d2 = dict(d); d2["t"] = t
+            cases.append(cli_case(sub, d2, "fa", recs))
     return cases
 
 def extra_C15(cases, impl):
